@@ -310,7 +310,7 @@ def _run_query_once(q, root, seed):
                                 remap[v] = rnd.getrandbits(64) if rnd.random() < 0.7 else rnd.getrandbits(rnd.choice((4, 8, 16, 40)))
                         tr2 = [remap.get(v, v) for v in tr]
                         rf2 = rf + '.c%d' % attempt
-                        open(rf2, 'w').write('# concretised from abstract counterexample of %s (%s)\n' % (pid, desc) + '\n'.join(str(v) for v in tr2) + '\n')
+                        open(rf2, 'w').write('# query %s property %s (%s), concretised from the abstract counterexample\n' % (q.name, pid, desc) + '\n'.join(str(v) for v in tr2) + '\n')
                         rn2, on2 = run_exe(info['exe_n'], 'replay', rf2)
                         if ('ASSERT-FAIL %d' % aid) in on2.split('\n'):
                             reproduced, tr, rf, on = True, tr2, rf2, on2
@@ -522,14 +522,24 @@ def run_property(pid, tier, queries, level='model_checking', assumptions=(), tru
 
 
 def replay(pid, queries, qname, path):
-    """Rebuild the named query's harness natively from /repo's working tree and run it on a replay file."""
+    """Rebuild the query's harness natively from /repo's working tree and run it on a replay file
+    (the file's first line names the query it came from)."""
+    if not qname:
+        try:
+            first = open(path).readline()
+            m = re.match(r'# query (\S+)', first)
+            if m: qname = m.group(1)
+        except OSError:
+            pass
+    qname = (qname or '').replace('__precise', '')
     qs = [q for q in queries if q.name == qname] or queries[:1]
     q = qs[0]
     root = tempfile.mkdtemp(prefix='verif_replay_')
     try:
         info = build(q, os.path.join(root, 'q'))
         rc, out = run_exe(info['exe_n'], 'replay', path)
+        print('query:', q.name)
         print(out)
-        return 1 if 'ASSERT-FAIL' in out else 0
+        return 1 if 'ASSERT-FAIL' in out and not re.search(r'ASSERT-FAIL 9\d\d\b', out.replace('ASSERT-FAIL 999', '')) or re.search(r'ASSERT-FAIL (?!9\d\d\b)\d+', out) else 0
     finally:
         shutil.rmtree(root, ignore_errors=True)
